@@ -90,7 +90,7 @@ theorem covered_alias (last fst : Bool) (t : Txt) (ht : t ∈ aliasTexts) : Cove
     subst this
     have := (goodOp_alias t ht).any last
     cases fst with
-    | true => simpa [joinInner] using this
+    | true => simpa [joinInner] using this.toFirst
     | false => simpa [joinInner] using this.notFirst
   · rcases alias_cases t ht with rfl | rfl | rfl | rfl | rfl | rfl | rfl | rfl <;>
       simp [processOperand, aliasTok, processRegister, expectOp, expectReg, aliasName, lower, lowerC,
